@@ -119,3 +119,59 @@ Example d_end_regenerates :
                                    | None => false end)
           [(true, false); (false, false); (true, true); (false, true)] = true.
 Proof. vm_compute. reflexivity. Qed.
+
+(** * strategies comp / bt lose an INTRAMOLECULAR reaction when a spectator molecule offers an intermolecular reading
+    (witness of C04_comp_bt_refuted; harness: hand:intra-spectator, known findings *:centre:fwd:{comp,bt}:not-separating).
+    5-bromopentan-1-ol cyclises; methanol is a spectator.  The centre pattern has two components (O ; C-Br), the substrate
+    has two molecules; comp keeps only matches that put different pattern components into different molecules (C06's
+    specification), so it returns the O of METHANOL with the C-Br of the bromo alcohol and not the identity; bt returns comp's
+    non-empty answer. *)
+Definition iG_ : hostg :=
+  LG [(1%N, NA 79%N false 1 0 [67%N]); (2%N, NA 67%N false 2 0 [67%N; 79%N]); (3%N, NA 67%N false 2 0 [67%N; 67%N]);
+      (4%N, NA 67%N false 2 0 [67%N; 67%N]); (5%N, NA 67%N false 2 0 [17010%N; 67%N]); (6%N, NA 17010%N false 0 0 [67%N]);
+      (7%N, NA 67%N false 3 0 [79%N]); (8%N, NA 79%N false 1 0 [67%N])]
+     [(1%N, 2%N, 2); (2%N, 3%N, 2); (3%N, 4%N, 2); (4%N, 5%N, 2); (5%N, 6%N, 2); (7%N, 8%N, 2)].
+Definition iH_ : hostg :=
+  LG [(1%N, NA 79%N false 0 0 [67%N; 67%N]); (2%N, NA 67%N false 2 0 [67%N; 79%N]); (3%N, NA 67%N false 2 0 [67%N; 67%N]);
+      (4%N, NA 67%N false 2 0 [67%N; 67%N]); (5%N, NA 67%N false 2 0 [67%N; 79%N]); (6%N, NA 17010%N false 1 0 []);
+      (7%N, NA 67%N false 3 0 [79%N]); (8%N, NA 79%N false 1 0 [67%N])]
+     [(1%N, 2%N, 2); (1%N, 5%N, 2); (2%N, 3%N, 2); (3%N, 4%N, 2); (4%N, 5%N, 2); (7%N, 8%N, 2)].
+Definition i_rule : triple := match rule_of true false iG_ iH_ with Some r => r | None => (LG [] [], LG [] [], LG [] []) end.
+Definition i_host : hostg := substrate false iG_ iH_.
+Definition i_pat : molg := pattern_of (snd (fst i_rule)).
+Definition i_enum := monos_on (tr_host i_host) (tr_pat i_pat).
+Definition s_comp_ : sarg := SStr [99; 111; 109; 112]%N.
+Definition s_bt_ : sarg := SStr [98; 116]%N.
+Definition i_regenerates (s : sarg) : bool :=
+  match read_its (api_engine i_enum) no_rematch (own_opts false false s None false) i_host i_rule fresh with
+  | (Some gs, _) => existsb (fun T => regen_folded T iG_ iH_) gs
+  | _ => false
+  end.
+Example intra_spectator_witness :
+  pair_wfb iG_ iH_ = true /\ no_explicit_H iG_ = true /\ consistent_H (its_construct iG_ iH_) = true /\
+  centre_carries (its_construct iG_ iH_) = true /\ rule_of true false iG_ iH_ = Some i_rule /\
+  match_okb i_host i_pat (id_map (node_ids i_pat)) = true /\
+  (* where the oxygen (pattern atom 1) goes in the kept mappings: the own oxygen 1 or methanol's 8 *)
+  option_map (map (fun m => mget m 1%N)) (compute_mappings (api_engine i_enum) (own_opts false false (SMember 0%N) None false) i_host i_rule)
+    = Some [Some 1%N; Some 8%N] /\
+  option_map (map (fun m => mget m 1%N)) (compute_mappings (api_engine i_enum) (own_opts false false s_comp_ None false) i_host i_rule) = Some [Some 8%N] /\
+  option_map (map (fun m => mget m 1%N)) (compute_mappings (api_engine i_enum) (own_opts false false s_bt_ None false) i_host i_rule) = Some [Some 8%N] /\
+  i_regenerates (SMember 0%N) = true /\ i_regenerates s_comp_ = false /\ i_regenerates s_bt_ = false.
+Proof. vm_compute. repeat split; reflexivity. Qed.
+Lemma comp_bt_refuted : exists (G H : hostg) (rule : triple),
+  pair_wfb G H = true /\ no_explicit_H G = true /\ consistent_H (its_construct G H) = true /\
+  centre_carries (its_construct G H) = true /\ rule_of true false G H = Some rule /\
+  let host := substrate false G H in
+  let pat := pattern_of (snd (fst rule)) in
+  let enum := monos_on (tr_host host) (tr_pat pat) in
+  let regenerates (s : sarg) :=
+    match read_its (api_engine enum) no_rematch (own_opts false false s None false) host rule fresh with
+    | (Some gs, _) => existsb (fun T => regen_folded T G H) gs
+    | _ => false
+    end in
+  match_okb host pat (id_map (node_ids pat)) = true /\
+  regenerates (SMember 0%N) = true /\ regenerates (SStr [99; 111; 109; 112]%N) = false /\ regenerates (SStr [98; 116]%N) = false.
+Proof.
+  exists iG_, iH_, i_rule. destruct intra_spectator_witness as (H1 & H2 & H3 & H4 & H5 & H6 & _ & _ & _ & H7 & H8 & H9).
+  repeat split; assumption.
+Qed.
